@@ -215,4 +215,19 @@ Atan2Class(y, x) ==
      ELSE IF yinf THEN <<"deg", IF ~xinf THEN 90 ELSE IF nx THEN 135 ELSE 45, ny>>
      ELSE IF xinf THEN <<"deg", IF nx THEN 180 ELSE 0, ny>>
      ELSE <<"gen", ny>>
+(* ------------------------------------------------------------------------ *)
+(* Small helpers of Math.hpp that the other functions are built from.        *)
+(* polyval(N, p, x): "Evaluate sum_{n=0..N} p_n x^(N-n).  Return 0 if N < 0. *)
+(* Return p_0, if N = 0 (even if x is infinite or a nan).  The evaluation    *)
+(* uses Horner's method."  On small integers every intermediate is exact.    *)
+(* sq(x) = x^2.  norm(x, y): "x/hypot(x, y), y/hypot(x, y)"; on a            *)
+(* Pythagorean triple scaled by a power of two hypot is exact.  hypot3 =     *)
+(* sqrt(x^2 + y^2 + z^2): exact when two arguments are zero.                 *)
+(* ------------------------------------------------------------------------ *)
+RECURSIVE Horner(_, _, _, _)
+Horner(p, i, x, acc) == IF i > Len(p) THEN acc ELSE Horner(p, i + 1, x, acc * x + p[i])
+PolyVal(p, x) == IF Len(p) = 0 THEN 0 ELSE Horner(p, 2, x, p[1])          \* p = <<p_0, ..., p_N>>, N = Len(p) - 1
+SqN(m, e) == Canon(<<FIN, m * m, 2 * e>>)                                  \* (m 2^e)^2 for 0 < |m| < 2^12: exact
+Triples == {<<3, 4, 5>>, <<5, 12, 13>>, <<8, 15, 17>>, <<7, 24, 25>>, <<20, 21, 29>>, <<12, 35, 37>>, <<9, 40, 41>>,
+            <<28, 45, 53>>, <<33, 56, 65>>, <<119, 120, 169>>, <<696, 697, 985>>}
 =============================================================================
